@@ -13,6 +13,7 @@ mod c03;
 mod c04;
 mod c08;
 mod c09;
+mod c10;
 mod c17;
 mod c18;
 mod c19;
@@ -76,6 +77,7 @@ fn main() {
                 "C04" => c04::run(&mut ctx),
                 "C08" => c08::run(&mut ctx),
                 "C09" => c09::run(&mut ctx),
+                "C10" => c10::run(&mut ctx),
                 "C17" => c17::run(&mut ctx),
                 "C18" => c18::run(&mut ctx),
                 "C19" => c19::run(&mut ctx),
